@@ -35,8 +35,8 @@ Lemma ist_eqb_true a b : ist_eqb a b = true -> a = b.
 Proof.
   unfold ist_eqb. intros H.
   repeat (match type of H with (_ && _) = true => apply andb_prop in H; let H' := fresh "K" in destruct H as [H H'] end).
-  apply mst_eqb_eq in H. apply ptask_eqb_true in K4. apply task_eqb_true in K3. apply task_eqb_true in K2.
-  apply Bool.eqb_prop in K1. apply Bool.eqb_prop in K0. apply Bool.eqb_prop in K.
+  apply mst_eqb_eq in H. apply ptask_eqb_true in K6. apply task_eqb_true in K5. apply task_eqb_true in K4.
+  repeat match goal with X : Bool.eqb _ _ = true |- _ => apply Bool.eqb_prop in X end.
   destruct a, b; cbn in *; subst; reflexivity.
 Qed.
 
@@ -110,7 +110,7 @@ Lemma all_ii_reset_clean : forallb ii_reset_clean ireach = true. Proof. vm_compu
 Lemma ireach_size : Nat.ltb 2000 (List.length ireach) = true. Proof. vm_compute. reflexivity. Qed.
 
 (* ---------- the big-step LTS is one of the schedules ---------- *)
-Definition embed (s : mst) : ist := mkI (norm s) (PBlocked (ppc s)) TNone TNone false false false.
+Definition embed (s : mst) : ist := mkI (norm s) (PBlocked (ppc s)) TNone TNone false false false (spa s) false.
 Definition slot_of (l : label) : slot := match l with Ext _ => SE | UserReset | SetSpaInfo => SU | _ => SP end.
 Definition suspended (s : ist) (sl : slot) : bool :=
   match sl with SP => match tp s with PSusp _ => true | _ => false end
@@ -160,4 +160,40 @@ Lemma k10_schedule_now_clean : option_map (fun s => (v_reset_dirty s, stuck_idle
 Proof. vm_compute. reflexivity. Qed.
 Lemma no_stuck_idle : forallb (fun s => negb (stuck_idle s)) ireach = true.
 Proof. vm_compute. reflexivity. Qed.
+Global Opaque istep.
+
+(* ---------- endpoints under interleaving: a spa object can be dropped without being disconnected (finding K11) ---------- *)
+(* (a) a user reset is suspended in its RUNNING_SPA_DISCONNECTED handler; the pump finishes its own reset, discovers and creates the
+       next spa object; the user's reset resumes, completes the disconnect of the OLD object and then clears self._spa - the reference
+       to the NEW object, whose endpoint nobody closes;
+   (b) a user reset runs to its end while the pump is suspended in its CONNECTION_STARTED handler (no spa yet: nothing to disconnect,
+       state IDLE); the pump creates the spa, the handshake ends without SPA_READY ('cannot find spa pack'): state still IDLE, a spa
+       in place; the pump discovers again and async_connect_to_spa overwrites self._spa with a new object *)
+Definition w_k11_stale_reset : list ilabel :=
+  [LBig Pump; LResume SP; LBig (LocOutcome false false); LResume SP; LBig Pump; LResume SP; LBig (LocOutcome true false);
+   LResume SP; LResume SP; LResume SP; LBig (ConnOutcome CRaise); LResume SP; LBig UserReset; LResume SP;
+   LBig Pump; LResume SP; LBig (LocOutcome false false); LResume SP; LBig Pump; LResume SP; LBig (LocOutcome true false);
+   LResume SP; LResume SP; LResume SP; LResume SU].
+Definition w_k11_overwrite : list ilabel :=
+  [LBig Pump; LResume SP; LBig (LocOutcome false false); LResume SP; LBig Pump; LResume SP; LBig (LocOutcome true false);
+   LResume SP; LResume SP; LBig UserReset; LResume SP; LBig (ConnOutcome CNext); LResume SP; LBig (ConnOutcome CNext); LResume SP; LResume SP;
+   LBig (ConnOutcome (CCannotFind 0)); LResume SP; LResume SP; LBig Pump; LResume SP; LBig (LocOutcome false false); LResume SP;
+   LBig Pump; LResume SP; LBig (LocOutcome true false); LResume SP; LResume SP; LResume SP].
+Local Transparent istep.
+Lemma k11_witnesses :
+  option_map v_leak (irun (ientered true) w_k11_stale_reset) = Some true /\
+  option_map v_leak (irun (ientered true) (removelast w_k11_stale_reset)) = Some false /\
+  option_map v_leak (irun (ientered true) w_k11_overwrite) = Some true /\
+  option_map v_leak (irun (ientered true) (removelast w_k11_overwrite)) = Some false.
+Proof. vm_compute. repeat split; reflexivity. Qed.
+(* without interleaving there is no such leak: on every state of the big-step LTS, the task a label starts, resumed to its end *)
+Lemma big_step_never_drops_a_spa :
+  forallb (fun s => forallb (fun l => match to_completion (embed s) l with Some (i, _) => negb (v_leak i) | None => true end) (Ext SPA_MAN_ENTER :: all_labels)) reach = true.
+Proof. vm_compute. reflexivity. Qed.
+(* whenever nothing is inside the manager and no object was dropped, the endpoint ledger agrees with the reference: open iff a spa is referenced *)
+Definition ii_ledger (s : ist) : bool :=
+  match tp s, te s, tu s with
+  | PBlocked _, TNone, TNone => v_leak s || Bool.eqb (spa (gs s)) (cur_open s)
+  | _, _, _ => true end.
+Lemma all_ii_ledger : forallb ii_ledger ireach = true. Proof. vm_compute. reflexivity. Qed.
 Global Opaque istep.
